@@ -562,7 +562,7 @@ func c12Generation(c *Ctx, rule string, serve *ssa.Function, adds []*cacheInsert
 		for _, rf := range reloadFns {
 			sts := storesToField(rf, genField)
 			okb := len(sts) > 0
-			fDnsdb := c.Field("dnsserver", "FBDNSDB", "dnsdb")
+			fDnsdb := c.tabledFieldByName("dnsserver", "FBDNSDB", "dnsdb")
 			for _, sw := range storesToField(rf, fDnsdb) {
 				blocked := map[*ssa.BasicBlock]bool{}
 				dominated := false
